@@ -78,7 +78,7 @@ def run(ctx, replay):
     # ---- G + T
     replays = _idxfam.generate(ctx, sizes, quick)
     ctx.sample({"replay": replays[len(replays) // 2]})
-    o5, o6 = _idxfam.run_driver(ctx, replays)
+    o5, o6 = _idxfam.run_driver(ctx, replays, which="05")
     evs = validate(ctx, o5)
     n = sum(1 for e in evs if e["ev"] == "reset")
     for e in evs:
@@ -87,7 +87,7 @@ def run(ctx, replay):
     if not quick:
         for kv in ("leveldb", "kv", "sqlite"):
             sub = replays[::max(1, len(replays) // 400)]
-            o5b, _ = _idxfam.run_driver(ctx, sub, kv=kv, tag="_" + kv)
+            o5b, _ = _idxfam.run_driver(ctx, sub, kv=kv, tag="_" + kv, which="05")
             validate(ctx, o5b)
             n += len(sub)
     # negative sample: a dropped missing| row must be reported
